@@ -158,6 +158,11 @@ int cp_rabin_dec(uint8_t *out, size_t *out_len, const uint8_t *in,
 		return RLC_ERR;
 	}
 
+	/* The ciphertext must have the length of the modulus. */
+	if (prv == NULL || in_len != bn_size_bin(prv->n)) {
+		return RLC_ERR;
+	}
+
 	bn_null(m);
 	bn_null(m0);
 	bn_null(m1);
@@ -172,6 +177,11 @@ int cp_rabin_dec(uint8_t *out, size_t *out_len, const uint8_t *in,
 		bn_new(t);
 
 		bn_read_bin(m, in, in_len);
+
+		/* The ciphertext representative must be in the range [0, n - 1]. */
+		if (bn_cmp(m, prv->n) != RLC_LT) {
+			RLC_THROW(ERR_NO_VALID);
+		}
 
 		bn_add_dig(t, prv->p, 1);
 		bn_rsh(t, t, 2);
@@ -240,7 +250,7 @@ int cp_rabin_dec(uint8_t *out, size_t *out_len, const uint8_t *in,
 					size--;
 					bn_rsh(t, m, 8 * size);
 					pad = (uint8_t)t->dp[0];
-				} while (pad == 0);
+				} while (pad == 0 && size > 0);
 
 				if (pad != RABIN_PAD) {
 					result = RLC_ERR;
@@ -249,7 +259,7 @@ int cp_rabin_dec(uint8_t *out, size_t *out_len, const uint8_t *in,
 				}
 			}
 
-			if (size <= *out_len) {
+			if (result == RLC_OK && size <= *out_len) {
 				*out_len = size;
 				memset(out, 0, size);
 				bn_write_bin(out, size, m);
